@@ -22,8 +22,12 @@ from nrel.hive.model.station.station import Station
 from nrel.hive.state.simulation_state import simulation_state_ops as ops
 from nrel.hive.state.simulation_state.simulation_state import SimulationState
 
-from .encode import Interner, enc_colldict
+from nrel.hive.util.h3_ops import H3Ops
+
+from .encode import Interner, enc_colldict, q
 from .world import cell_palette
+
+AT_KEY = {"veh": "vehicles", "req": "requests", "stn": "station", "base": "base"}
 
 
 def _entities(kind: str, sim):
@@ -46,6 +50,59 @@ def snapshot(n: Interner, kind: str, sim) -> Dict[str, Any]:
         "loc": enc_colldict(n, loc, kind),
         "search": enc_colldict(n, search, kind),
     }
+
+
+def lookups(n: Interner, kind: str, sim, cells: List[str], rng: random.Random) -> Dict[str, Any]:
+    """the read side of the indexes on this state: `at_geoid` at every palette cell,
+    `get_entities_at_cell` at every palette search cell and one of their neighbours, and a few ring
+    searches (`nearest_entity`) with the rings h3 produced"""
+    ents = tuple(e for _, e in sorted(_entities(kind, sim).items()))
+    _, search = _maps(kind, sim)
+    res = sim.sim_h3_search_resolution
+    out: Dict[str, Any] = {"at": [], "search": [], "near": []}
+    for c in cells:
+        try:
+            resp = sim.at_geoid(c)
+            ids = sorted(n.get(kind, i) for i in resp[AT_KEY[kind]])
+            others = sum(len(v) for key, v in resp.items() if key != AT_KEY[kind])
+            out["at"].append({"cell": n.cell(c), "ids": ids, "others": others})
+        except Exception:
+            out["at"].append({"cell": n.cell(c), "ids": None, "others": 0})
+    scs = sorted({h3.h3_to_parent(c, res) for c in cells})
+    extra = sorted(h3.k_ring(scs[0], 1) - set(scs))
+    for sc in scs + extra[:1]:
+        try:
+            found = H3Ops.get_entities_at_cell(sc, search, ents)
+            out["search"].append({"cell": n.cell(sc), "ids": [n.get(kind, e.id) for e in found]})
+        except Exception:
+            out["search"].append({"cell": n.cell(sc), "ids": None})
+    if ents:
+        relevant = set(search.keys()) | {h3.h3_to_parent(e.geoid, res) for e in ents} | set(scs)
+        k_dist_km = h3.edge_length(res, unit="km") * 2
+        for _ in range(2):
+            origin = rng.choice(cells)
+            mode = rng.choice(["one", "one", "all", "some"])
+            if mode == "one":
+                valid = {rng.choice(ents).id}
+            elif mode == "all":
+                valid = {e.id for e in ents}
+            else:
+                valid = {e.id for e in ents if rng.random() < 0.5}
+            max_k = rng.choice([0, 1, 2, 3])
+            max_km = max_k * k_dist_km * 0.999 if max_k else 0.0
+            so = h3.h3_to_parent(origin, res)
+            rings = [[n.cell(c) for c in sorted(h3.k_ring(so, k)) if c in relevant] for k in range(max_k + 1)]
+            dist = {e.id: H3Ops.great_circle_distance(origin, e.geoid) for e in ents}
+            try:
+                r = H3Ops.nearest_entity(geoid=origin, entities=ents, entity_search=search, sim_h3_search_resolution=res,
+                                         distance_function=lambda e: dist[e.id], is_valid=lambda e: e.id in valid,
+                                         max_search_distance_km=max_km)
+                got = -1 if r is None else n.get(kind, r.id)
+            except Exception:
+                got = -2
+            out["near"].append({"origin": n.cell(origin), "rings": rings, "valid": sorted(n.get(kind, i) for i in valid),
+                                "dist": [[n.get(kind, i), q(d)] for i, d in sorted(dist.items())], "got": got})
+    return out
 
 
 def gen_case(rng: random.Random, k: int, w) -> Dict[str, Any]:
@@ -112,6 +169,7 @@ def gen_case(rng: random.Random, k: int, w) -> Dict[str, Any]:
         except Exception:
             outcome = "raise"
         step = {"op": op, "id": n.get(kind, args[0]), "outcome": outcome, "after": snapshot(n, kind, sim)}
+        step["after"]["lookups"] = lookups(n, kind, sim, cells, rng)
         if op != "remove":
             step["cell"] = n.cell(args[1])
             step["tag"] = args[2]
@@ -132,10 +190,15 @@ def worker(args) -> Dict[str, Any]:
     findings = []
     shapes = set()
     n_ops = 0
+    n_lookups = 0
     for r, o in zip(recs, outs):
         n_ops += len(r["steps"])
         for st in r["steps"]:
             shapes.add((r["kind"], st["op"], st["outcome"]))
+            lk = st["after"]["lookups"]
+            n_lookups += len(lk["at"]) + len(lk["search"]) + len(lk["near"])
+            for x in lk["near"]:
+                shapes.add((r["kind"], "ring-search", "found" if x["got"] >= 0 else "none", min(len(x["rings"]), 3), min(len(x["valid"]), 2)))
         if "error" in o:
             findings.append({"id": r["id"], "kind": "driver-error", "text": [o["error"][:300]], "record": r})
         else:
@@ -143,5 +206,5 @@ def worker(args) -> Dict[str, Any]:
                 findings.append({"id": r["id"], "kind": "diff", "text": o["diff"][:8], "record": r})
             if o.get("mon"):
                 findings.append({"id": r["id"], "kind": "mon", "text": o["mon"][:8], "record": r})
-    return {"n": len(recs), "ops": n_ops, "findings": fw.pick(findings, 20), "n_findings": len(findings), "shapes": sorted(shapes),
+    return {"n": len(recs), "ops": n_ops, "lookups": n_lookups, "findings": fw.pick(findings, 20), "n_findings": len(findings), "shapes": sorted(shapes),
             "sample": {"kind": recs[0]["kind"], "steps": [{k: s[k] for k in s if k != "after"} for s in recs[0]["steps"][:12]]}}
